@@ -203,6 +203,19 @@ class Abs:
                 return self.mul(l, r)
         if isinstance(e, ast.UnaryOp) and isinstance(e.op, ast.USub):
             return self.neg(self.ev(e.operand))
+        if isinstance(e, ast.BinOp) and isinstance(e.op, ast.Pow) and isinstance(e.left, ast.Constant) and isinstance(e.right, (ast.Constant, ast.UnaryOp)):
+            try:
+                v = float(eval(compile(ast.Expression(e), "<const>", "eval"), {"__builtins__": {}}))  # a literal constant power such as 2**-31
+                return Itv(v, v)
+            except Exception:
+                pass
+        if isinstance(e, ast.BoolOp) and isinstance(e.op, ast.Or) and len(e.values) == 2:
+            # `x or c`: x when x != 0, else c.  For x in [0, h) and a constant 0 < c < h the value lies in (0, h): zero is excluded.
+            x, c = self.ev(e.values[0]), self.ev(e.values[1])
+            if x.lo.is_const() and x.lo.c == 0 and not x.lo_open and c.lo.is_const() and c.hi.is_const() and c.lo.c == c.hi.c and c.lo.c > 0 \
+                    and x.hi.is_const() and c.hi.c < x.hi.c:
+                return Itv(x.lo, x.hi, True, x.hi_open, False)
+            raise Unproved(f"`or` default not modelled: {unparse(e)}")
         raise Unproved(f"expression form not modelled: {unparse(e)}")
 
     @staticmethod
